@@ -5966,6 +5966,12 @@ class FlowIRConcrete(object):
         ret['variables'] = variables
 
         if raw is False:
+            # VV: the overrides of OTHER platforms are not part of this platform's configuration: they may refer to
+            # variables that only those platforms define, so keep them as they are instead of resolving them
+            foreign_overrides = {name: value for name, value in (ret.get('override') or {}).items() if name != platform}
+            for name in foreign_overrides:
+                del ret['override'][name]
+
             full_name = 'components.stage%s.%s' % comp_id
             if need_fully_resolved_flowir:
                 # VV: Add anything that is missing just before applying string interpolation
@@ -5975,6 +5981,8 @@ class FlowIRConcrete(object):
             FlowIR.convert_component_types(
                 ret, ignore_convert_errors=ignore_convert_errors, is_primitive=is_primitive
             )
+            if foreign_overrides:
+                ret.setdefault('override', {}).update(foreign_overrides)
 
         # VV: Interpreters will *never* expand their arguments
         if ret.get('command', {}).get('interpreter', None) is not None:
